@@ -15,6 +15,8 @@ Lemma c14_fp_wrapper : project keep_memory solver_parallel_wrapper_body = projec
 Proof. vm_compute. reflexivity. Qed.
 Lemma c14_fp_seqgen : project keep_memory seqgen_channel_body = project keep_memory seqgen_channel_body_ref.
 Proof. vm_compute. reflexivity. Qed.
+Lemma c14_parallel_race_free : racy_vars parallel_solve_body = [].
+Proof. vm_compute. reflexivity. Qed.
 Lemma c14_solver_race_free : racy_vars solver_solve_body = [].
 Proof. vm_compute. reflexivity. Qed.
 Lemma c14_wrapper_race_free : racy_vars solver_parallel_wrapper_body = [].
